@@ -477,6 +477,39 @@ def ar_glance(deb):
         pass
 
 
+# close() as an ORDINARY step of a history (spec/DebFileCache.tla: Close -- no trace in any later answer).
+# way -> the w of the model ("all" or the one part closed)
+CLOSE_WAYS = {"close": "all", "with": "all", "exit": "all", "parts": "all", "twice": "all",
+              "control": "control", "data": "data"}
+
+
+def obs_close(deb, way):
+    """DebFile.close() / leaving a `with` block / __exit__ / the parts' own close(); the object is used on
+    afterwards.  -> err ('' = returned)"""
+    try:
+        if way == "with":
+            with deb as inner:
+                if inner is not deb:
+                    return "EXC:enter-returned-other-object"
+        elif way == "exit":
+            deb.__exit__(None, None, None)
+        elif way == "parts":
+            deb.data.close()
+            deb.control.close()
+        elif way == "control":
+            deb.control.close()
+        elif way == "data":
+            deb.data.close()
+        elif way == "twice":
+            deb.close()
+            deb.close()
+        else:
+            deb.close()
+    except Exception as e:
+        return classify(e)
+    return ""
+
+
 def obs_read_begin(part, path, k):
     """get_file(path) and a read of k bytes -> (err, file object or None, head)"""
     try:
